@@ -245,6 +245,9 @@ def run(ctx):
                 kinds = list(modgen.KINDS) + list(modgen.REQ_MODULE_KINDS)
             else:
                 kinds = [rng.choice(modgen.KINDS + modgen.REQ_MODULE_KINDS) for _ in range(rng.randint(2, 9))]
+            if idx % 3 == 2:
+                # one doctest that skips itself at run time through pytest's API, somewhere among the others
+                kinds.insert(rng.randrange(0, len(kinds)), rng.choice(modgen.RUNTIME_SKIP_KINDS))
             if idx % 4 == 1:
                 # one doctest that leaves the process in another working directory, somewhere in front of the others
                 kinds.insert(rng.randrange(0, max(1, len(kinds) - 1)), rng.choice(modgen.SUBPROCESS_ONLY_KINDS))
@@ -257,6 +260,9 @@ def run(ctx):
             jobs.append((tmp, len(jobs) + 1000, kinds, 'functions', ['auto', 'freeform'][len(jobs) % 2], ''))
         for st in ('auto', 'freeform'):
             jobs.append((tmp, len(jobs) + 1000, RAW_REDEFINITION, 'raw', st, ''))
+        for k in modgen.RUNTIME_SKIP_KINDS:
+            jobs.append((tmp, len(jobs) + 1000, ['pass', k, 'pass', 'fail_output'], 'functions', 'freeform', ''))
+            jobs.append((tmp, len(jobs) + 1000, [k, 'pass'], 'functions', 'auto', ''))
         # a callable named like a command word of the native runner (all, dump, list), force-disabled or not: `all` still means all
         for special in ('all', 'dump', 'list'):
             for kinds in (['disabled', 'pass', 'pass'], ['disabled', 'fail_output', 'pass'], ['fail_output', 'pass'], ['pass', 'disabled']):
